@@ -14,16 +14,18 @@ CFG = dict(
               "flatNormals_spec_nondegenerate", "lapUpdate_value_with_neighbours", "neighbours_ne_nil_of_edge", "laplacian_order_independent", "lapIter_any_enumeration", "neighbours_mem", "neighbours_nodup", "laplacian_frame", "smoothNormals_frame", "flatNormals_frame",
               # round 2 (Props/C03More.lean)
               "aabbContains_closed", "aabbContains_corners", "crop_contract", "cropContract_unique", "crop_deciding_attr", "crop_survivors", "scaleAlongNormal_vertex", "scaleAlongNormal_spec", "scaleAlongNormal_rejects", "scaleAlongNormal_rejects_wf",
-              "scale2D_spec", "normalize2D_spec", "scale2D_rejects", "normalize2D_rejects", "copyAttr_spec", "alongNormal_post", "scale2D_post", "cropNode_spec", "scaleAlongNormalNode_spec", "translateNode_spec", "rotateNode_spec", "scaleNode_spec",
+              "scale2D_spec", "normalize2D_spec", "scale2D_rejects", "normalize2D_rejects", "copyAttr_spec", "alongNormal_post", "scale2D_post", "normalize2D_post", "cropNode_spec", "scaleAlongNormalNode_spec", "translateNode_spec", "rotateNode_spec", "scaleNode_spec", "vertexColorSpace_spec", "vertexColorSpaceT_spec",
               # round 2 (Props/C03Src.lean): the model lambdas are the expressions regenerated from the Go source
               "translate_from_source", "scaleAbout_from_source", "rotate_from_source", "scale2D_from_source", "alongNormal_from_source", "perVertex_glue_from_source", "crop_keep_from_source", "crop_keep_closed"],
     # unfoldings of model definitions / statements over R that do not transfer to Go on the excluded float-only branches
     helper_theorems=["laplacian_spec", "lapSweepWith_succ", "lapSweepWith_untouched", "flatNormals_spec", "flatNormals_values", "lapUpdate_value", "flatAccum_last",
-                     "keepAt_eq_compact", "keepAt_map_self", "stripEmpty_attrs_zero", "stripEmpty_attrs_pos", "alongNormal_v3"],
+                     "keepAt_eq_compact", "keepAt_map_self", "stripEmpty_attrs_zero", "stripEmpty_attrs_pos", "alongNormal_v3", "length2_div"],
     streams=[dict(name="c03", n=dict(quick=400, thorough=40000),
                   # LaplacianSmooth sums the neighbours in Go map order: ONLY the smoothed attribute's values (line c03.op.laplacian) are compared
                   # within a tolerance; shape (c03.op.laplacian_shape) and all other attributes (frame_spec) exactly
-                  ulps={"c03.op.laplacian": (1 << 20, 1e-6)})],
+                  ulps={"c03.op.laplacian": (1 << 20, 1e-6),
+                        # VertexColorSpace calls math.Pow (Go's own implementation); the driver uses libm's pow: a few ulps apart
+                        "c03.op.vertexcolorspace": (16, 0.0), "c03.op.vertexcolorspacet": (16, 0.0)})],
     trusted=T_COMMON + [
         "hand-written pure models PolyVerif/Model/{Mesh,MeshOps}.lean of modeling/mesh.go and modeling/meshops/*.go; tied to the "
         "code on every run by bit-exact comparison of complete result meshes on generated inputs"],
@@ -56,7 +58,7 @@ CFG = dict(
              "correspondence only",
              "the weld theorems hold for every key function; that the Go key is Vector3ToInt (with the platform-specific int(NaN)) is part of the driver, checked by correspondence only",
              "IEEE rounding of the transform maps; Tri.Area3D (keep decision passed to the model); SliceByPlane, "
-             "SmoothNormalsImplicitWeld, LaplacianSmoothAlongAxis, colour ops (VertexColorSpace: math.Pow, ColorGradingLut) not modelled (C02 runs them through the WF oracle only); round 2: ScaleAttributeAlongNormal, ScaleAttribute2D, NormalizeAttribute2D, CopyFloatNAttribute are modelled (Model/MeshMore.lean), bit-exact correspondence + frame/map theorems; normalize2D has no independent value theorem (its 3-D twin has normalize_post)"],
+             "SmoothNormalsImplicitWeld, LaplacianSmoothAlongAxis, ColorGradingLut not modelled; VertexColorSpace is modelled with the two transfer functions as PARAMETERS (they call math.Pow): frame + which component map (vertexColorSpace_spec), the driver runs them with libm pow and the two op lines are compared within 16 ulps (C02 runs them through the WF oracle only); round 2: ScaleAttributeAlongNormal, ScaleAttribute2D, NormalizeAttribute2D, CopyFloatNAttribute are modelled (Model/MeshMore.lean), bit-exact correspondence + frame/map theorems; normalize2D has no independent value theorem (its 3-D twin has normalize_post)"],
     assumptions=["float64 arithmetic in Go on amd64 is IEEE-754 without FMA contraction (transform maps are compared bit-for-bit)",
                  "Go int(float64) of NaN / out-of-range values is math.MinInt64 (amd64 CVTTSD2SI), mirrored by the driver's weld key"],
     manifest=dict(
